@@ -102,7 +102,7 @@ func validateAbsent(n *Node, in MIn) bool {
 	case "int":
 		return v.K == "i" && v.I == 0
 	case "float":
-		return (v.K == "f" && v.F == 0) || (v.K == "i" && v.I == 0)
+		return (v.K == "f" && v.Fl() == 0) || (v.K == "i" && v.I == 0)
 	case "bool":
 		return v.K == "b" && !v.B
 	case "time":
@@ -936,6 +936,9 @@ func (m *Model) evalPre(n *Node, in MIn, path string, mn *MNode) {
 			mn.Issues++
 			mn.Failed = true
 			return
+		}
+		if s == "n/a" {
+			s = ""
 		}
 		inner := m.Eval(n.Elem, MIn{V: VS(strings.TrimSpace(s))}, path)
 		mn.Val, mn.HasVal = inner.Val, inner.HasVal
